@@ -18,6 +18,28 @@ from mc.lang import graft, qgen
 PROP = "C09"
 
 
+def dead_position(host, where, backend, mds):
+    """True iff the expression position of the host provably has no influence on the generated package: the host with
+    that sub-expression replaced by two different constants translates to the same files (a projection whose result
+    nothing downstream looks at is dropped by func_adl's chain simplification before the translator sees it)."""
+    if where == "whole" or ":" not in where:
+        return False
+    from mc.lang.norm import digest_files
+    idx = int(where.split(":", 1)[0])
+    digs = []
+    for const in (12345, 54321):
+        tree = ast.parse(host, mode="eval").body
+        t2 = graft._Replace(idx, lambda x, c=const: ast.Constant(c)).visit(tree)
+        text2 = ast.unparse(ast.fix_missing_locations(t2))
+        p = translate_ast(wrap_metadata(parse_query(text2), mds), backend, query_text=text2)
+        if not p.ok:
+            return False
+        if "12345" in "".join(p.files.values()) or "54321" in "".join(p.files.values()):
+            return False
+        digs.append(digest_files(p.files))
+    return digs[0] == digs[1]
+
+
 def worker(args):
     backend, items, mds = args
     out = []
@@ -33,6 +55,7 @@ def worker(args):
             i = src.find("execute ()" if backend == "atlas" else "Analyzer::analyze")
             body = src[i:i + 6000]
             out.append((cid, kind, "accepted", {"construct": cid, "position_kind": kind, "position": where, "host": host, "query": text, "backend": backend,
+                                                 "dead_position": dead_position(host, where, backend, mds),
                                                  "code_excerpt": "\n".join(l for l in body.split("\n") if l.strip())[:1500]}))
         else:
             out.append((cid, kind, "refused:" + pkg.exc_type, None))
